@@ -212,7 +212,7 @@ impl Prop for C15 {
         for l in ["greville", "natural(2,2)", "clamped(1,1)", "mixed-end-derivatives", "least-squares", "perturbed-greville"] {
             v.push(format!("layout:{}", l));
         }
-        for d in ["random", "polynomial", "dual-data", "dual2-data", "dual-abscissa", "dual2-abscissa", "basis-dual-abscissa", "basis-dual2-abscissa", "mismatched-counts-rejected", "evaluate-before-solve-rejected"] {
+        for d in ["random", "polynomial", "dual-data", "dual2-data", "dual-abscissa", "dual2-abscissa", "basis-dual-abscissa", "basis-dual2-abscissa", "solved-again-on-same-object", "solved-on-object-created-with-coefficients", "mismatched-counts-rejected", "evaluate-before-solve-rejected"] {
             v.push(format!("check:{}", d));
         }
         for c in ["f64xF64", "f64xDual", "f64xDual2", "DualxF64", "DualxDual", "DualxDual2(refused)", "Dual2xF64", "Dual2xDual(refused)", "Dual2xDual2"] {
@@ -409,7 +409,21 @@ impl Prop for C15 {
                     pv(l.tau[j], d)
                 })
                 .collect();
-            let mut spp = PPSpline::<f64>::new(k, l.t.clone(), None);
+            // the polynomial is solved on a fresh object, on one that was already solved for other data, or on
+            // one created with coefficients: solving again must replace what was there
+            let mut spp = match idx % 3 {
+                0 => PPSpline::<f64>::new(k, l.t.clone(), None),
+                1 => {
+                    let mut s0 = PPSpline::<f64>::new(k, l.t.clone(), None);
+                    let _ = guarded(|| s0.csolve(&l.tau, &y, l.left_n, l.right_n, l.lsq).is_ok());
+                    ctx.class("check:solved-again-on-same-object");
+                    s0
+                }
+                _ => {
+                    ctx.class("check:solved-on-object-created-with-coefficients");
+                    PPSpline::<f64>::new(k, l.t.clone(), Some((0..n).map(|i| 0.5 + i as f64).collect()))
+                }
+            };
             match guarded(|| spp.csolve(&l.tau, &yp, l.left_n, l.right_n, l.lsq).is_ok()) {
                 Caught::Ok(true) => {}
                 Caught::Ok(false) => {
